@@ -73,7 +73,7 @@ def run_unit(A, unit, rep, tier):
                     if all(want in held_ids(s) for s in st.get(n.id, [()])):
                         rep.ok("C14.b")
                     else:
-                        rep.fail("C14.b", norm_key("C14.b", n.func, n.stmt),
+                        rep.fail("C14.b", norm_key("C14.b", n.func, "suspend-test"),
                                  f"`{n.stmt}` in {n.func} consults the tree-wide suspend counter without the collection lock: while another thread is inside a suspended section this "
                                  f"read silently skips its load", g.witness(g.path(g.entry, [n.id])), g.label)
     if A.is_buffered(cls):
